@@ -435,7 +435,7 @@ def c18_scenarios(tier, seed):
     for n in (1, 3, 8, ncpu + 3):
         lst = [good[i % 6] for i in range(n)]
         sid[0] += 1
-        scen.append({"id": sid[0], "files": base, "list": lst, "vanish": [], "churn": sorted(set(lst)), "reps": 60 if tier == "quick" else 600, "trace": False})
+        scen.append({"id": sid[0], "files": base, "list": lst, "vanish": [], "churn": sorted(set(lst)), "reps": 60 if tier == "quick" else 250, "trace": False})
     big = [{"p": "big/f%05d" % i, "k": "reg", "c": "%d" % (i % 7)} for i in range(10000)]
     bigscen = [{"id": 900001, "files": big, "list": [f["p"] for f in big], "reps": 2 if tier == "quick" else 5},
                {"id": 900002, "files": big + [{"p": "m", "k": "absent", "c": ""}],
